@@ -24,6 +24,11 @@ pub trait Model: Sized + 'static {
     fn claim(&self, _limit: u128) -> u128 {
         0
     }
+    /// Are all bool / char / enum-tag bit patterns inside this value valid? Read through raw
+    /// integer loads so that an invalid pattern is observed rather than acted upon.
+    fn valid_bits(&self) -> bool {
+        true
+    }
 }
 
 /// true if every value of this shape occupies at least one byte on the wire at every version
@@ -32,9 +37,20 @@ pub fn nonempty_wire(s: &Shape) -> bool {
     (0..=mv).all(|v| crate::model::min_size(s, v) > 0)
 }
 
+thread_local! {
+    /// total number of collection elements (including zero-sized ones) seen by `claim` since the
+    /// last reset: lets the caller avoid walking values that are legitimately huge (Vec<()>)
+    pub static TOTAL_ELEMS: std::cell::Cell<u128> = std::cell::Cell::new(0);
+}
+pub const WALK_CAP: u128 = 2_000_000;
+
 pub fn claim_iter<'a, T: Model + 'a>(len: usize, items: impl Iterator<Item = &'a T>, limit: u128) -> u128 {
     let mut total: u128 = if nonempty_wire(&T::shape()) { len as u128 } else { 0 };
-    if total > limit {
+    let seen = TOTAL_ELEMS.with(|c| {
+        c.set(c.get().saturating_add(len as u128));
+        c.get()
+    });
+    if total > limit || seen > WALK_CAP {
         return total;
     }
     for it in items {
@@ -104,6 +120,10 @@ impl Model for bool {
     fn shape() -> Shape {
         Shape::Bool
     }
+    fn valid_bits(&self) -> bool {
+        let raw = unsafe { std::ptr::read_volatile(self as *const bool as *const u8) };
+        raw <= 1
+    }
     fn to_val(&self) -> Val {
         Val::Bool(*self)
     }
@@ -145,6 +165,10 @@ impl Model for f64 {
 impl Model for char {
     fn shape() -> Shape {
         Shape::Char
+    }
+    fn valid_bits(&self) -> bool {
+        let raw = unsafe { std::ptr::read_volatile(self as *const char as *const u32) };
+        char::from_u32(raw).is_some()
     }
     fn to_val(&self) -> Val {
         Val::Char(*self as u32)
@@ -208,6 +232,9 @@ impl<T: Model> Model for Vec<T> {
     fn claim(&self, limit: u128) -> u128 {
         claim_iter(self.len(), self.iter(), limit)
     }
+    fn valid_bits(&self) -> bool {
+        self.iter().all(|x| x.valid_bits())
+    }
     fn to_val(&self) -> Val {
         Val::Seq(self.iter().map(|x| x.to_val()).collect())
     }
@@ -221,6 +248,9 @@ impl<T: Model> Model for VecDeque<T> {
     }
     fn claim(&self, limit: u128) -> u128 {
         claim_iter(self.len(), self.iter(), limit)
+    }
+    fn valid_bits(&self) -> bool {
+        self.iter().all(|x| x.valid_bits())
     }
     fn to_val(&self) -> Val {
         Val::Seq(self.iter().map(|x| x.to_val()).collect())
@@ -252,6 +282,9 @@ impl<T: Model> Model for Box<[T]> {
     fn claim(&self, limit: u128) -> u128 {
         claim_iter(self.len(), self.iter(), limit)
     }
+    fn valid_bits(&self) -> bool {
+        self.iter().all(|x| x.valid_bits())
+    }
     fn to_val(&self) -> Val {
         Val::Seq(self.iter().map(|x| x.to_val()).collect())
     }
@@ -265,6 +298,9 @@ impl<T: Model> Model for Arc<[T]> {
     }
     fn claim(&self, limit: u128) -> u128 {
         claim_iter(self.len(), self.iter(), limit)
+    }
+    fn valid_bits(&self) -> bool {
+        self.iter().all(|x| x.valid_bits())
     }
     fn to_val(&self) -> Val {
         Val::Seq(self.iter().map(|x| x.to_val()).collect())
@@ -280,6 +316,9 @@ impl<T: Model + Ord> Model for BTreeSet<T> {
     fn claim(&self, limit: u128) -> u128 {
         claim_iter(self.len(), self.iter(), limit)
     }
+    fn valid_bits(&self) -> bool {
+        self.iter().all(|x| x.valid_bits())
+    }
     fn to_val(&self) -> Val {
         Val::Seq(self.iter().map(|x| x.to_val()).collect())
     }
@@ -293,6 +332,9 @@ impl<T: Model + Ord> Model for BinaryHeap<T> {
     }
     fn claim(&self, limit: u128) -> u128 {
         claim_iter(self.len(), self.iter(), limit)
+    }
+    fn valid_bits(&self) -> bool {
+        self.iter().all(|x| x.valid_bits())
     }
     fn to_val(&self) -> Val {
         let mut items: Vec<Val> = self.iter().map(|x| x.to_val()).collect();
@@ -309,6 +351,9 @@ impl<T: Model + Eq + Hash, S: std::hash::BuildHasher + Default + 'static> Model 
     }
     fn claim(&self, limit: u128) -> u128 {
         claim_iter(self.len(), self.iter(), limit)
+    }
+    fn valid_bits(&self) -> bool {
+        self.iter().all(|x| x.valid_bits())
     }
     fn to_val(&self) -> Val {
         let mut items: Vec<Val> = self.iter().map(|x| x.to_val()).collect();
@@ -329,6 +374,9 @@ impl<T: Model + Eq + Hash> Model for indexmap::IndexSet<T> {
     }
     fn claim(&self, limit: u128) -> u128 {
         claim_iter(self.len(), self.iter(), limit)
+    }
+    fn valid_bits(&self) -> bool {
+        self.iter().all(|x| x.valid_bits())
     }
     fn to_val(&self) -> Val {
         Val::Seq(self.iter().map(|x| x.to_val()).collect())
@@ -361,6 +409,9 @@ impl<K: Model + Ord, V: Model> Model for BTreeMap<K, V> {
         }
         total
     }
+    fn valid_bits(&self) -> bool {
+        self.iter().all(|(k, v)| k.valid_bits() && v.valid_bits())
+    }
     fn to_val(&self) -> Val {
         Val::Map(self.iter().map(|(k, v)| (k.to_val(), v.to_val())).collect())
     }
@@ -384,6 +435,9 @@ impl<K: Model + Eq + Hash, V: Model, S: std::hash::BuildHasher + Default + 'stat
             }
         }
         total
+    }
+    fn valid_bits(&self) -> bool {
+        self.iter().all(|(k, v)| k.valid_bits() && v.valid_bits())
     }
     fn to_val(&self) -> Val {
         let mut items: Vec<(Val, Val)> = self.iter().map(|(k, v)| (k.to_val(), v.to_val())).collect();
@@ -415,6 +469,9 @@ impl<K: Model + Eq + Hash, V: Model> Model for indexmap::IndexMap<K, V> {
         }
         total
     }
+    fn valid_bits(&self) -> bool {
+        self.iter().all(|(k, v)| k.valid_bits() && v.valid_bits())
+    }
     fn to_val(&self) -> Val {
         Val::Map(self.iter().map(|(k, v)| (k.to_val(), v.to_val())).collect())
     }
@@ -429,6 +486,9 @@ impl<T: Model> Model for Option<T> {
     }
     fn claim(&self, limit: u128) -> u128 {
         self.as_ref().map(|x| x.claim(limit)).unwrap_or(0)
+    }
+    fn valid_bits(&self) -> bool {
+        self.as_ref().map(|x| x.valid_bits()).unwrap_or(true)
     }
     fn to_val(&self) -> Val {
         match self {
@@ -454,6 +514,12 @@ impl<T: Model, E: Model> Model for Result<T, E> {
             Err(x) => x.claim(limit),
         }
     }
+    fn valid_bits(&self) -> bool {
+        match self {
+            Ok(x) => x.valid_bits(),
+            Err(x) => x.valid_bits(),
+        }
+    }
     fn to_val(&self) -> Val {
         match self {
             Ok(x) => Val::Ok(Box::new(x.to_val())),
@@ -470,7 +536,7 @@ impl<T: Model, E: Model> Model for Result<T, E> {
 }
 
 macro_rules! transparent {
-    ($w:ident, $new:expr, $get:expr, $claim:expr) => {
+    ($w:ident, $new:expr, $get:expr, $claim:expr, $valid:expr) => {
         impl<T: Model> Model for $w<T> {
             fn shape() -> Shape {
                 T::shape()
@@ -487,14 +553,19 @@ macro_rules! transparent {
                 let f: fn(&$w<T>, u128) -> u128 = $claim;
                 f(self, limit)
             }
+            fn valid_bits(&self) -> bool {
+                // claim closures borrow the inner value; reuse that access path with a zero limit
+                let f: fn(&$w<T>) -> bool = $valid;
+                f(self)
+            }
         }
     };
 }
-transparent!(Box, Box::new, |x| (**x).to_val(), |x, l| (**x).claim(l));
-transparent!(Rc, Rc::new, |x| (**x).to_val(), |x, l| (**x).claim(l));
-transparent!(Arc, Arc::new, |x| (**x).to_val(), |x, l| (**x).claim(l));
+transparent!(Box, Box::new, |x| (**x).to_val(), |x, l| (**x).claim(l), |x| (**x).valid_bits());
+transparent!(Rc, Rc::new, |x| (**x).to_val(), |x, l| (**x).claim(l), |x| (**x).valid_bits());
+transparent!(Arc, Arc::new, |x| (**x).to_val(), |x, l| (**x).claim(l), |x| (**x).valid_bits());
 use std::cell::{Cell, RefCell};
-transparent!(RefCell, RefCell::new, |x| x.borrow().to_val(), |x, l| x.borrow().claim(l));
+transparent!(RefCell, RefCell::new, |x| x.borrow().to_val(), |x, l| x.borrow().claim(l), |x| x.borrow().valid_bits());
 impl<T: Model + Copy> Model for Cell<T> {
     fn shape() -> Shape {
         T::shape()
@@ -507,11 +578,11 @@ impl<T: Model + Copy> Model for Cell<T> {
     }
 }
 type StdMutex<T> = std::sync::Mutex<T>;
-transparent!(StdMutex, std::sync::Mutex::new, |x| x.lock().unwrap().to_val(), |x, l| x.lock().unwrap().claim(l));
+transparent!(StdMutex, std::sync::Mutex::new, |x| x.lock().unwrap().to_val(), |x, l| x.lock().unwrap().claim(l), |x| x.lock().unwrap().valid_bits());
 type PlMutex<T> = parking_lot::Mutex<T>;
-transparent!(PlMutex, parking_lot::Mutex::new, |x| x.lock().to_val(), |x, l| x.lock().claim(l));
+transparent!(PlMutex, parking_lot::Mutex::new, |x| x.lock().to_val(), |x, l| x.lock().claim(l), |x| x.lock().valid_bits());
 type PlRwLock<T> = parking_lot::RwLock<T>;
-transparent!(PlRwLock, parking_lot::RwLock::new, |x| x.read().to_val(), |x, l| x.read().claim(l));
+transparent!(PlRwLock, parking_lot::RwLock::new, |x| x.read().to_val(), |x, l| x.read().claim(l), |x| x.read().valid_bits());
 
 impl Model for Arc<str> {
     fn shape() -> Shape {
@@ -563,6 +634,9 @@ impl<T: Model, const N: usize> Model for [T; N] {
     fn claim(&self, limit: u128) -> u128 {
         claim_iter(self.len(), self.iter(), limit)
     }
+    fn valid_bits(&self) -> bool {
+        self.iter().all(|x| x.valid_bits())
+    }
     fn to_val(&self) -> Val {
         Val::Seq(self.iter().map(|x| x.to_val()).collect())
     }
@@ -602,6 +676,9 @@ impl<A: Model, B: Model> Model for (A, B) {
     fn claim(&self, limit: u128) -> u128 {
         self.0.claim(limit).saturating_add(self.1.claim(limit))
     }
+    fn valid_bits(&self) -> bool {
+        self.0.valid_bits() && self.1.valid_bits()
+    }
     fn to_val(&self) -> Val {
         Val::Tuple(vec![self.0.to_val(), self.1.to_val()])
     }
@@ -616,6 +693,9 @@ impl<A: Model, B: Model, C: Model> Model for (A, B, C) {
     }
     fn claim(&self, limit: u128) -> u128 {
         self.0.claim(limit).saturating_add(self.1.claim(limit)).saturating_add(self.2.claim(limit))
+    }
+    fn valid_bits(&self) -> bool {
+        self.0.valid_bits() && self.1.valid_bits() && self.2.valid_bits()
     }
     fn to_val(&self) -> Val {
         Val::Tuple(vec![self.0.to_val(), self.1.to_val(), self.2.to_val()])
@@ -648,6 +728,9 @@ where
     fn claim(&self, limit: u128) -> u128 {
         claim_iter(self.len(), self.iter(), limit)
     }
+    fn valid_bits(&self) -> bool {
+        self.iter().all(|x| x.valid_bits())
+    }
     fn to_val(&self) -> Val {
         Val::Seq(self.iter().map(|x| x.to_val()).collect())
     }
@@ -661,6 +744,9 @@ impl<T: Model, const C: usize> Model for arrayvec::ArrayVec<T, C> {
     }
     fn claim(&self, limit: u128) -> u128 {
         claim_iter(self.len(), self.iter(), limit)
+    }
+    fn valid_bits(&self) -> bool {
+        self.iter().all(|x| x.valid_bits())
     }
     fn to_val(&self) -> Val {
         Val::Seq(self.iter().map(|x| x.to_val()).collect())
@@ -849,7 +935,7 @@ impl Model for SystemTime {
 }
 impl Model for chrono::DateTime<chrono::Utc> {
     fn shape() -> Shape {
-        Shape::I64
+        Shape::Timestamp
     }
     fn to_val(&self) -> Val {
         Val::I(self.timestamp_nanos_opt().expect("in range") as i128)
